@@ -96,7 +96,7 @@ proof fn lemma_sorted_perm_is_identity(s: Seq<(usize, BTreeSet<usize>)>, p: Seq<
     ensures
         p == s,
 {
-    broadcast use vstd::seq_lib::to_multiset_ensures;
+    broadcast use vstd::seq_lib::group_to_multiset_ensures;
     let n = s.len() as int;
     assert(p.len() == n) by {
         assert(p.to_multiset().len() == p.len());
@@ -174,20 +174,36 @@ impl AdjacencyList {
     @after `let chunk_size`
         proof { lemma_chunks(order as int, t as int, chunk_size as int); }
     @loop 1
+    invariant_except_break
+        handles@.len() == it1.index@,
     invariant
         2 <= order <= 0x7fff_ffff_ffff_ffff,
         1 <= t <= order,
         chunk_size >= 1,
         t * chunk_size >= order,
         t * chunk_size <= order + t - 1,
-        handles@.len() == thread_id,
         forall|i: int| 0 <= i < handles@.len() ==> handle_ok(#[trigger] handles@[i], order as int, chunk_size as int, i),
     ensures
         handles@.len() * chunk_size >= order,
     @loop_start 1
-        proof { lemma_chunk_step(t as int, chunk_size as int, thread_id as int); }
+        proof {
+            assert(thread_id == it1.index@);
+            lemma_chunk_step(t as int, chunk_size as int, thread_id as int);
+        }
+    @before `let mut local`
+        broadcast use vstd::std_specs::iter::group_iter_axioms;
+        broadcast use axiom_btree_set_from_iter;
     @after `let vertices`
-        proof { lemma_th_range_items(0, order); }
+        proof {
+            broadcast use vstd::laws_cmp::group_laws_cmp;
+            assert(vstd::laws_cmp::obeys_cmp::<usize>());
+            lemma_th_range_items(0, order);
+            let rem = (core::ops::Range { start: 0usize, end: order }).remaining();
+            assert(vertices@ == rem.to_set());
+            assert forall|x: usize| #[trigger] vertices@.contains(x) == (x < order) by {
+                assert(rem.to_set().contains(x) == rem.contains(x));
+            }
+        }
     @loop 2
     invariant
         start < end <= order,
@@ -226,3 +242,23 @@ impl AdjacencyList {
         }
     @*/
 }
+
+// ---- thread-parallel functions of this file that are NOT under contract (reported, not papered over) ----
+// degree_sequence: `scope(|s| { for (chunk, local_indegrees) in self.arcs.chunks(cs).zip(indegree_chunks.iter_mut()) { s.spawn(move || ..
+//   *local_indegrees.get_unchecked_mut(v) += 1 ..) } })`: the scope closure and every worker capture a `&mut`.
+//   Verus on the extracted function: "Verus does not currently support closures capturing a mutable reference for variables of
+//   any mode" (at `indegree_chunks.iter_mut()`), and on the worker alone: "Verus does not currently support closures capturing a
+//   mutable reference (mutably captured variable ..)".
+// is_semicomplete: `self.arcs.as_ptr() as usize` handed to scoped workers, `arcs_ptr_usize as *const BTreeSet<usize>`, `&*ptr.add(u)`;
+//   the workers return () and communicate through a shared `Arc<AtomicBool>` with Relaxed loads/stores.  Extractor:
+//   "E5: unsupported pointer use `self.arcs.as_ptr()` at line 965; E5: cast to raw pointer".  Beyond the pointer rule, the result
+//   travels through shared memory, which the spawn/join contract (a worker's effect is its return value) does not cover.
+// complement: the workers are `'static` `spawn`ed closures that read the main thread's `full: Vec<usize>` through its address
+//   (`full_ptr as usize` .. `full_ptr_usize as *const usize` .. `*full_ptr.add(i)`).  Extractor: "E5: cast to raw pointer".  Rule E5
+//   would have to turn `*full_ptr.add(i)` into `full[i]`, i.e. make the `move` closures capture `full` itself, which does not
+//   borrow-check (moved in the first iteration; not 'static by reference): the shared read-only memory has no safe-Rust shape.
+// union: three addresses (`self.arcs.as_ptr() as usize`, `other.arcs.as_ptr() as usize`, `arcs.as_mut_ptr() as usize`), the scoped
+//   workers `write(arcs_ptr.add(u), ..)` into disjoint parts of the main thread's Vec.  Extractor: "E5: unsupported pointer use
+//   `self.arcs.as_ptr()` at line 1286; .. `other.arcs.as_ptr()` at line 1287; .. `arcs.as_mut_ptr()` at line 1288; E5: cast to raw
+//   pointer" (x3).  Needs a separation argument over shared mutable memory (only `merge_two_sorted`, its sequential kernel, is
+//   proved: units/inc/list_ops.inc.rs).
